@@ -13,6 +13,7 @@
 package c10
 
 import (
+	"sync"
 	"flag"
 	"fmt"
 	"sort"
@@ -366,6 +367,59 @@ func runLaws[T any](t *testing.T, in inst[T]) {
 			}
 		}
 	})
+
+	// An instance is a value shared by whoever sorts or compares with it: Compare and Less must give the
+	// same answers when several goroutines use the instance at once (no scratch state shared between
+	// calls). Real goroutines: a miss proves nothing, a mismatch with the sequential answers is a violation.
+	// Skipped for the instances with a reduced case budget (high tuple arities are exponentially slow).
+	if in.weight == 0 || in.weight >= 1 {
+		kit.Check(t, in.name+"/concurrent", "4 pairs (as in the other laws); sign(Compare) and Less computed sequentially, then G in 2..8 goroutines released together recompute them 100 times each in rotating order; every answer must equal the sequential one; non-trivial iff G >= 4; distinct by (G, printed pairs)", kit.Opt{Weight: 0.1, MinChecks: 1}, func(rt *rapid.T, rec *kit.Rec) {
+			G := rapid.IntRange(2, 8).Draw(rt, "G")
+			const n = 4
+			var as, bs [n]T
+			desc := ""
+			for i := 0; i < n; i++ {
+				as[i], bs[i] = drawPair(rt, d, rec, 6)
+				desc += pd(as[i], bs[i]) + " ; "
+			}
+			rec.Case(G >= 4, fmt.Sprintf("G=%d %s", G, desc))
+			var wc [n]int
+			var wl [n]bool
+			rec.Guard(rt, sig("concurrent"), func() {
+				for i := 0; i < n; i++ {
+					wc[i], wl[i] = sign(in.o.Compare(as[i], bs[i])), in.o.Less(as[i], bs[i])
+				}
+			})
+			bad := make([]string, G)
+			start := make(chan struct{})
+			var wg sync.WaitGroup
+			for g := 0; g < G; g++ {
+				wg.Add(1)
+				go func(g int) {
+					defer wg.Done()
+					defer func() {
+						if r := recover(); r != nil && bad[g] == "" {
+							bad[g] = fmt.Sprintf("goroutine %d panicked: %v", g, r)
+						}
+					}()
+					<-start
+					for k := 0; k < 100; k++ {
+						i := (g + k) % n
+						if c, l := sign(in.o.Compare(as[i], bs[i])), in.o.Less(as[i], bs[i]); (c != wc[i] || l != wl[i]) && bad[g] == "" {
+							bad[g] = fmt.Sprintf("goroutine %d of %d: %s: sign(Compare)=%d Less=%v while other goroutines were comparing; sequentially %d, %v", g, G, pd(as[i], bs[i]), c, l, wc[i], wl[i])
+						}
+					}
+				}(g)
+			}
+			close(start)
+			wg.Wait()
+			for _, m := range bad {
+				if m != "" {
+					rec.Failf(rt, sig("concurrent"), "%s", m)
+				}
+			}
+		})
+	}
 }
 
 func sprint[T any](v T) string { return fmt.Sprintf("%#v", v) }
